@@ -106,7 +106,8 @@ def gen_C15(rng, tier):
         depth = rng.randint(0, 3)
         x = upstream(p, rng, x0, depth)
         y = p.bind('fwd %s %s' % (a, x))
-        finish(p, y, shape, rng, [x0, x])
+        # (a skip connection around the activation: its input is also consumed, directly, by what consumes its output)
+        finish(p, y, shape, rng, [x0, x], skip=x, skip_exact=(kind in ('relu', 'leaky')))
         if rng.random() < 0.4:
             # second and third round through the SAME activation object, same input shape
             for rnd in range(rng.randint(1, 2)):
@@ -329,7 +330,7 @@ def gen_C16(rng, tier):
             p.add('setptr %s %s' % (pw, w2))
             y = p.bind('fwd %s %s' % (f, x)); p.add('obs %s' % y)
             p.tag('replaced')
-        finish(p, y, [batch, fo], rng, [x])
+        finish(p, y, [batch, fo], rng, [x], skip=x, skip_shape=[batch, fi])
         for q in (pw, pb):
             t = p.bind('deref %s' % q); p.add('obs %s' % t)
         # the layer object is used again: further cycles after the parameters were reset in place, updated by the
@@ -484,7 +485,18 @@ def gen_C11(rng, tier):
             f = p.bind('fc %d %d W=%s B=%s' % (fi, fo, i1, i2), 'f')
             pw, pb = p.bind('weight %s 0' % f, 'p'), p.bind('weight %s 1' % f, 'p')
             p.tag(how)
-        dead = (how == 'custom' and lossk == 'mse' and actk == 'relu' and rng.random() < 0.6)
+        # a hidden layer in front (its parameters are trained too): the main layer's input is then a tracked tensor and the
+        # hidden layer's gradients pass through the main layer's input gradient
+        hidden = None
+        if how == 'custom' and rng.random() < 0.45:
+            fh = fi
+            fi0 = rng.randint(1, 4)
+            hf, hpw, hpb = new_fc(p, rng, fi0, fh, custom=True)
+            hact = rng.choice([None, 'tanh', 'sigmoid', 'leaky'])
+            ha = p.bind(act_cmd(rng, hact, 2), 'a') if hact else None
+            hidden = (hf, hpw, hpb, ha, fi0)
+            p.tag('hidden-layer', 'hidden-width%d' % fh, 'hidden-act:%s' % hact)
+        dead = (how == 'custom' and lossk == 'mse' and actk == 'relu' and not hidden and rng.random() < 0.6)
         if dead:
             # every pre-activation is negative: outputs and all gradients are exactly zero
             w0 = p.tensor([fo], [-1.0 - 0.5 * k for k in range(fo)], tracked=True)
@@ -497,22 +509,29 @@ def gen_C11(rng, tier):
         j = p.bind(lossk, 'j')
         lr = rng.choice(['nil', f2b(0.1), f2b(0.0), f2b(-0.05), f2b(0.5)])
         o = p.bind('sgd %s' % lr, 'o')
-        x = p.tensor([batch, fi], [rng.uniform(0.1, 1) if dead else rng.uniform(-1, 1) for _ in range(batch * fi)])
+        x = p.tensor([batch, hidden[4] if hidden else fi],
+                     [rng.uniform(0.1, 1) if dead else rng.uniform(-1, 1) for _ in range(batch * (hidden[4] if hidden else fi))])
         if lossk == 'ce':
             tgt = p.tensor([batch, fo], [rng.choice([0.0, 1.0]) for _ in range(batch * fo)])
         else:
             tgt = p.tensor([batch], [rng.choice([0.0, 1.0]) if lossk == 'bce' else rng.uniform(-1, 1) for _ in range(batch)])
         steps = rng.randint(1, 6 if tier == 'quick' else 10)
         skip_reset_at = rng.randrange(steps) if rng.random() < (0.7 if dead else 0.25) else None
+        params = [pw, pb] + ([hidden[1], hidden[2]] if hidden else [])
         for s in range(steps):
-            y = p.bind('fwd %s %s' % (f, x))
+            if hidden:
+                h = p.bind('fwd %s %s' % (hidden[0], x))
+                if hidden[3]: h = p.bind('fwd %s %s' % (hidden[3], h))
+                y = p.bind('fwd %s %s' % (f, h))
+            else:
+                y = p.bind('fwd %s %s' % (f, x))
             if a: y = p.bind('fwd %s %s' % (a, y))
             if lossk != 'ce':
                 y = p.bind('squeeze %s 1' % y)
             l = p.bind('loss %s %s %s' % (j, y, tgt))
             p.add('obs %s' % l)
             p.add('bp %s' % l)
-            for q in (pw, pb):
+            for q in params:
                 p.add('upd %s %s' % (o, q))
                 t = p.bind('deref %s' % q)
                 if skip_reset_at == s and q == pw:
